@@ -9,7 +9,7 @@ use proptest::prelude::*;
 use serde::{Deserialize, Serialize};
 use std::str::FromStr;
 
-pub const RULE: &str = "generated (input, format) string pairs fed to all ten parser entry points (Epoch::from_str, from_gregorian_str, from_format_str, from_str_with_format, Format::from_str, Format::parse, Duration::from_str, TimeScale/Weekday/MonthName::from_str): (1) grammar-valid inputs of every form of C10, C11 and C19 (ISO/RFC 3339 with offsets and scales, JD/MJD/SEC, unit tables, offsets, all 17 format tokens and '?'); (2) 1-4 mutations of them (delete / insert / replace / duplicate / truncate, splice of two valid inputs, non-ASCII digits, 2-, 3- and 4-byte characters at the byte offsets the parsers slice at, sign characters, digit runs up to 400, huge exponents, inf/nan spellings, white space); (3) arbitrary Unicode strings and pairs; (4) well-formed date-times with one field out of range, which must be rejected; oracle = every call returns Ok or Err without panicking (harness built with overflow checks) within the 20 s watchdog; non-trivial = the input survives past the parser's first token (some entry point returns Ok or a late error), or contains a multi-byte character, or belongs to class (4); distinct = distinct (input, format) pairs (hash set, capped: lower bound)";
+pub const RULE: &str = "generated (input, format) string pairs fed to all ten parser entry points (Epoch::from_str, from_gregorian_str, from_format_str, from_str_with_format, Format::from_str, Format::parse, Duration::from_str, TimeScale/Weekday/MonthName::from_str): (1) grammar-valid inputs of every form of C10, C11 and C19 (ISO/RFC 3339 with offsets and scales, JD/MJD/SEC, unit tables, offsets, all 17 format tokens and '?'); (2) 1-4 mutations of them (delete / insert / replace / duplicate / truncate, splice of two valid inputs, non-ASCII digits, 2-, 3- and 4-byte characters at the byte offsets the parsers slice at, sign characters, digit runs up to 400, huge exponents, inf/nan spellings, white space; numeric forms whose number is any spelling Rust's float parser accepts: NaN / inf / infinity in every casing and sign, exponents at and beyond the float range, 300-digit strings); (3) arbitrary Unicode strings and pairs; (4) well-formed date-times with one field out of range, which must be rejected; oracle = every call returns Ok or Err without panicking (harness built with overflow checks) within the 20 s watchdog; non-trivial = the input survives past the parser's first token (some entry point returns Ok or a late error), or contains a multi-byte character, or belongs to class (4); distinct = distinct (input, format) pairs (hash set, capped: lower bound)";
 
 pub const ASSUMPTIONS: &[&str] = &[
     "a panic inside any entry point, an arithmetic overflow under overflow checks, or a call exceeding the 20 s watchdog is a violation; Ok or any Err is acceptance",
@@ -188,6 +188,22 @@ fn numeric_valid() -> BS<String> {
         .boxed()
 }
 
+/// numeric forms whose number is one of the spellings Rust's float parser accepts beyond plain decimals
+/// (non-finite values, signed zeros, exponents at and beyond the float range, long digit strings)
+fn numeric_special() -> BS<String> {
+    let specials = vec![
+        "NaN", "nan", "NAN", "-NaN", "+nan", "inf", "-inf", "+inf", "Inf", "INF", "infinity", "-infinity", "Infinity", "+Infinity", "1e308", "1.8e308", "-1.8e308", "1e309", "1e999", "-1e999", "1e-999", "5e-324", "4.9e-324", "-0", "-0.0", "+0", "0e0", ".5", "5.", "1_000", "0x10",
+        "1e18", "9.3e18", "-9.3e18", "1.7976931348623157e308", "179769313486231570000000000000000000000000000000000000000000000000000000000000000000000000000000000000000000000000000000000000000000000000000000000000000000000000000000000000000000000000000000000000000000000000000000000000000000000000000000000000000000000000000000000000000000000000000000000000000",
+        "0.000000000000000000000000000000000000000000000000000000000000000000000000000000000000000000000000000000000000000000000000000000000000000000000000000000000000000000000000000000000000000000000000000000000000000000000000000000000000000000000000000000000000000000000000000000000000000000000000000000000000000000000000000000000049",
+    ];
+    (prop::sample::select(vec!["JD", "MJD", "SEC", "jd", "Jd"]), prop::sample::select(specials), proptest::option::of(0usize..9), prop::sample::select(vec![" ", "  ", "\t", ""]))
+        .prop_map(|(p, x, sc, sp)| match sc {
+            Some(sc) => format!("{}{}{} {}", p, sp, x, SCALE_NAMES[sc]),
+            None => format!("{}{}{}", p, sp, x),
+        })
+        .boxed()
+}
+
 fn duration_valid() -> BS<String> {
     let units = ["d", "days", "day", "h", "hours", "hour", "hr", "min", "mins", "minute", "minutes", "s", "second", "seconds", "sec", "ms", "millisecond", "milliseconds", "μs", "us", "microsecond", "microseconds", "ns", "nanosecond", "nanoseconds"];
     let group = (0u32..100_000, proptest::option::of(0u32..1000), prop::sample::select(units.to_vec())).prop_map(|(i, f, u)| match f {
@@ -227,6 +243,7 @@ fn valid_case() -> BS<Case> {
         (3, (iso_valid(), 0usize..12).prop_map(|(s, k)| Case { s, f: CONST_FORMATS[k].to_string(), must_reject: false }).boxed()),
         (1, (extreme_year_valid(), any::<bool>()).prop_map(|(s, t)| Case { f: if t { "%Y-%m-%dT%H:%M:%S".to_string() } else { "%Y-%m-%dT%H:%M:%S %T".to_string() }, s, must_reject: false }).boxed()),
         (2, (numeric_valid(), 0usize..12).prop_map(|(s, k)| Case { s, f: CONST_FORMATS[k].to_string(), must_reject: false }).boxed()),
+        (1, (numeric_special(), 0usize..12).prop_map(|(s, k)| Case { s, f: CONST_FORMATS[k].to_string(), must_reject: false }).boxed()),
         (2, (duration_valid(), 0usize..12).prop_map(|(s, k)| Case { s, f: CONST_FORMATS[k].to_string(), must_reject: false }).boxed()),
         (1, (word_valid(), word_valid()).prop_map(|(s, w)| Case { s, f: format!("%B %A %T {}", w), must_reject: false }).boxed()),
     ])
